@@ -21,6 +21,7 @@ RULE = ("Hypothesis: 1-4 integer-tick well-formed single-channel sequences (arbi
         "there, the in-force function of keys equals the saved one; other sequences carry no signatures. Non-trivial: >= 2 "
         "sequences, a signature on a sequence other than the meta target, and a simultaneous event pair. Distinct by digest.")
 RULE = RULE + " Round e: signature values from a two-value pool per case (A, B, A across sequences)."
+RULE = RULE + " Round h: Sequence.save, objects saved before, objects saved / edited in place / saved again."
 ASSUMPTIONS = ["mido's MIDI file writer/reader is trusted", "trailing rests are not stored by the writer and not part of the statement"]
 TIERS = {"quick": dict(shards=8, examples=400, alt_ppqn=[480], alt_shards=2),
          "thorough": dict(shards=16, examples=5000, alt_ppqn=[480, 7, 1000], alt_shards=2)}
@@ -61,7 +62,8 @@ def _case(draw):
         end = max([n[3] for n in notes] + [m[1] for m in meta] + [0])
         spec["pad"] = draw(st.one_of(st.none(), st.just(end + draw(st.integers(0, 30)))))
         seqs.append(spec)
-    return {"seqs": seqs, "target": draw(st.integers(0, k - 1))}
+    return {"seqs": seqs, "target": draw(st.integers(0, k - 1)),
+            "how": draw(st.sampled_from(["sequences_save", "sequences_save", "saved_before", "single_save", "saved_then_edited"]))}
 
 
 def strategy(params, shard, nshards):
@@ -79,6 +81,25 @@ def check(case):
             return out
         seqs.append(built[0])
         contents.append(built[1:])
+    if case.get("how") == "saved_then_edited":
+        # the objects were written once, then changed in place (every tick doubled), and are written again: the second file must
+        # hold the edited music
+        out.label("save:saved_then_edited")
+        try:
+            os.makedirs(os.path.join(ROOT, ".cache"), exist_ok=True)
+            with tempfile.TemporaryDirectory(dir=os.path.join(ROOT, ".cache")) as d0:
+                Sequence.sequences_save(seqs, os.path.join(d0, "first.mid"))
+            contents = []
+            for s in seqs:
+                s.scale(2, quantise_afterwards=False)
+                ev, dur = O.seq_events(s)
+                ns, an = O.notes(ev)
+                if an:
+                    raise ValueError("edited content ill-formed")
+                contents.append((ev, dur, ns))
+        except Exception as e:
+            out.inconclusive = f"first-save-or-edit-raised:{type(e).__name__}"
+            return out
     union = [e for c in contents for e in c[0]]
     ticks_all = [e[0] for e in union if e[1] in (O.NOTE_ON, O.NOTE_OFF, O.TS, O.KS)]
     simultaneous = len(ticks_all) != len(set(ticks_all))
@@ -89,7 +110,15 @@ def check(case):
     with tempfile.TemporaryDirectory(dir=os.path.join(ROOT, ".cache")) as d:
         path = os.path.join(d, "case.mid")
         try:
-            Sequence.sequences_save(seqs, path)
+            how = case.get("how", "sequences_save")
+            if how == "saved_before":
+                # the same objects were written once before (saving must not have changed them)
+                Sequence.sequences_save(seqs, os.path.join(d, "first.mid"))
+            if how == "single_save" and len(seqs) == 1:
+                seqs[0].save(path)
+            else:
+                Sequence.sequences_save(seqs, path)
+            out.label("save:" + how)
         except Exception as e:
             out.fail(f"save-raises:{type(e).__name__}", f"{e}")
             return out
